@@ -512,6 +512,7 @@ func exactCountCases() []ExactCount {
 // ---- (d) interleaving -------------------------------------------------------
 
 type Workload struct {
+	Expected [][]string `json:"expected_in_parent,omitempty"` // cold starts: filled in by the parent before the children run
 	Procs  int     `json:"gomaxprocs"`
 	Rounds int     `json:"rounds"`
 	G      [][]WOp `json:"goroutines"`
@@ -666,9 +667,13 @@ func runWorkloadConcurrentFirst(w Workload) error {
 	want := w.expected(nil)
 	for g := range w.G {
 		for i := range w.G[g] {
+			op := w.G[g][i]
 			if got[g][i] != want[g][i] {
-				op := w.G[g][i]
 				return fmt.Errorf("cold start: goroutine %d call %d %s(v%s %q) made concurrently as one of the first calls of the process returned %q, the same call made afterwards returns %q", g, i, op.Kind, spec.Versions[op.Ver%4].Name, string(op.S), got[g][i], want[g][i])
+			}
+			// what the parent process (other GOMAXPROCS, other CPU set, long warmed up) got for the same call
+			if g < len(w.Expected) && i < len(w.Expected[g]) && got[g][i] != w.Expected[g][i] {
+				return fmt.Errorf("cold start: goroutine %d call %d %s(v%s %q) returns %q in this fresh process (GOMAXPROCS=%d at start, %d CPUs) and %q in the parent process", g, i, op.Kind, spec.Versions[op.Ver%4].Name, string(op.S), got[g][i], runtime.GOMAXPROCS(0), runtime.NumCPU(), w.Expected[g][i])
 			}
 		}
 	}
@@ -703,6 +708,7 @@ func checkCold(w Workload) error {
 	os.MkdirAll(dir, 0o755)
 	coldSeq++
 	path := filepath.Join(dir, fmt.Sprintf("cold-%d-%d-%d.json", os.Getpid(), env.Shard, coldSeq))
+	w.Expected = w.expected(nil) // the results of the same calls in this (the parent) process
 	b, _ := json.Marshal(w)
 	if err := os.WriteFile(path, b, 0o644); err != nil {
 		return nil
@@ -718,11 +724,16 @@ func checkCold(w Workload) error {
 		cmd.Env = append(os.Environ(), "VERIF_COLD_FILE="+path, "VERIF_REPLAY=", "GORACE=atexit_sleep_ms=20")
 		// the processes of a case start with different GOMAXPROCS settings in their environment (1, 2, inherited):
 		// package initialisers that size tables or pick strategies from it see a small value there
-		switch i % 3 {
+		// and, for every second case (rotating with the seed), a value whose low byte is zero (a count kept in 8 bits)
+		switch i % 6 {
 		case 0:
 			cmd.Env = append(cmd.Env, "GOMAXPROCS=1", "VERIF_COLD_KEEP_PROCS=1")
 		case 1:
+			cmd.Env = append(cmd.Env, "GOMAXPROCS=256", "VERIF_COLD_KEEP_PROCS=1")
+		case 3:
 			cmd.Env = append(cmd.Env, "GOMAXPROCS=2")
+		case 4:
+			cmd.Env = append(cmd.Env, "GOMAXPROCS=3", "VERIF_COLD_KEEP_PROCS=1")
 		}
 		out, err := cmd.CombinedOutput()
 		if err != nil {
@@ -1397,8 +1408,10 @@ func TestC14(t *testing.T) {
 	}
 	for _, hc := range hcombos {
 		hc := hc
-		if plain {
-			break
+		if plain && (hc.kind != "parse" || env.Phase != "plain") {
+			// the plain side process keeps the parser crowds (result comparison only): a file that is compiled
+			// only when the race detector is off is not in the main process at all
+			continue
 		}
 		for _, procs := range []int{2, 16} {
 			procs := procs
@@ -1462,6 +1475,56 @@ func TestC14(t *testing.T) {
 					return c
 				}, check)
 			}
+		}
+	}
+	// (m) neighbours: objects stored by value side by side, each worked on by its own goroutine
+	if !plain {
+		for ver := 0; ver < 4; ver++ {
+			ver := ver
+			if h.replaying() && ver != 0 {
+				continue
+			}
+			check := func(c NeighbourCase) error {
+				var err error
+				seq++
+				ok := h.t.Run(fmt.Sprintf("nb%d", seq), func(st *testing.T) { err = runNeighbours(c) })
+				if err != nil {
+					return err
+				}
+				if !ok {
+					return fmt.Errorf("the race detector reported a data race between goroutines that each work on their own element of an array of v%s objects", spec.Versions[c.Ver%4].Name)
+				}
+				return nil
+			}
+			Rapid(h, "neighbours", env.Scale(2, 10), func(rt *rapid.T) NeighbourCase {
+				c := NeighbourCase{Ver: ver, Iters: 3000}
+				for i, n := 0, rapid.IntRange(4, 12).Draw(rt, "n"); i < n; i++ {
+					c.Vecs = append(c.Vecs, gen.BStr(gen.ValidVector(rt, ver).S))
+				}
+				h.R.Case(fmt.Sprintf("neighbours v%s", spec.Versions[ver].Name), fmt.Sprintf("NB%v", c))
+				h.R.Count("calls made on array elements whose neighbours are written concurrently", int64(len(c.Vecs)*c.Iters))
+				return c
+			}, check)
+		}
+	}
+	// (l) recovered panics of calls on a nil receiver must not poison the package
+	if plain || h.replaying() {
+		var pc []PoisonCase
+		reps := gen.Representatives()
+		for i, r := range reps {
+			if i == len(reps)-1 || reps[i+1].Ver != r.Ver {
+				pc = append(pc, PoisonCase{Ver: r.Ver, Vec: gen.BStr(r.S)})
+			}
+		}
+		if !doReplay(h, "poison", checkPoison) {
+			for _, c := range pc {
+				h.R.Pending("poison", c)
+				if err := safely(checkPoison, c); err != nil {
+					h.fail("poison", c, err)
+				}
+			}
+			h.R.AddExact(int64(len(pc)), int64(len(pc)))
+			h.R.Count("recovered-panic cases (every method on a nil receiver, then ordinary calls under a 30 s watchdog)", int64(len(pc)))
 		}
 	}
 	// (k) stack positions: every version, a base-only and a long vector
@@ -1571,15 +1634,32 @@ func TestC14(t *testing.T) {
 		Rapid(h, "cold-start", nc, func(rt *rapid.T) Workload {
 			w := Workload{Procs: []int{4, 16}[rapid.IntRange(0, 1).Draw(rt, "procs")], Rounds: env.Scale(3, 6)}
 			ng := rapid.IntRange(16, 48).Draw(rt, "goroutines")
+			// rotate with the case number, not with a rapid draw: the first case rapid generates is its minimal one
+			prep := (coldSeq + int(env.Seed)) % 3
+			invalidFirst := true // every other use of Rating in this check starts with a valid score
 			for g := 0; g < ng; g++ {
 				var ops []WOp
 				ver := cb.ver
 				if cb.ver2 >= 0 && g%2 == 1 {
 					ver = cb.ver2
 				}
-				// the first calls of every goroutine reach the focused function; a few follow-ups
+				// the first calls of every goroutine reach the focused function; a few follow-ups.
+				// How the object comes to be differs from case to case: parsed, built by Set calls on the zero
+				// value (no parser call at all before the focused function), or the untouched zero value
 				if cb.kind == "scores" || cb.kind == "vector" || cb.kind == "nomen" || cb.kind == "get" {
-					ops = append(ops, WOp{Kind: "parse", Ver: ver, S: gen.BStr(gen.ValidVector(rt, ver).S)})
+					switch prep {
+					case 0:
+						ops = append(ops, WOp{Kind: "parse", Ver: ver, S: gen.BStr(gen.ValidVector(rt, ver).S)})
+					case 1:
+						vv := gen.ValidVector(rt, ver)
+						for _, abv := range vv.Written {
+							ops = append(ops, WOp{Kind: "set", Ver: ver, Abv: gen.BStr(abv), Val: gen.BStr(vv.A[abv])})
+						}
+					}
+				}
+				if cb.kind == "rating" && invalidFirst {
+					// the very first rating of the process is refused (out of range)
+					ops = append(ops, WOp{Kind: "rating", Ver: ver, X: math.Float64bits([]float64{-0.1, 10.1, -1, 11, math.Inf(1)}[g%5])})
 				}
 				ops = append(ops, drawOpFocus(rt, false, cb.kind, ver))
 				for i, k := 0, rapid.IntRange(0, 2).Draw(rt, "more"); i < k; i++ {
